@@ -1,7 +1,7 @@
 (* Proofs about the moves model (property C09). *)
 From Coq Require Import ZArith QArith List Bool Lia.
 Import ListNotations.
-From Inf Require Import model.PathM model.EngineM model.WeightM model.MovesM proofs.PathP.
+From Inf Require Import base.ListX model.PathM model.EngineM model.WeightM spec.WeightS model.MovesM proofs.PathP proofs.WeightP.
 Open Scope Z_scope.
 
 (* ================================================================== the stop rule *)
@@ -510,4 +510,1281 @@ Proof.
   split; [exact M1|]. split.
   { rewrite M2, Hplb. rewrite <- Hb1, Hpb. cbn [torigin]. lia. }
   rewrite <- Hf3. rewrite Hks. reflexivity.
+Qed.
+
+(* ================================================================== accept flag <-> ACC *)
+
+Definition flag_ok (r : result) : Prop := r_acc r = true <-> r_status r = ACC.
+
+Lemma flag_ok_fail st p g s : st <> ACC -> flag_ok (fail st p g s).
+Proof. intros H. unfold flag_ok, fail. cbn. split; [discriminate|congruence]. Qed.
+
+Lemma flag_ok_error s : flag_ok (error s).
+Proof. unfold flag_ok, error. cbn. split; discriminate. Qed.
+
+Lemma flag_ok_mk b st p g w s : (b = true <-> st = ACC) -> flag_ok (mkR b st p g w s).
+Proof. intros H. exact H. Qed.
+
+Ltac flag_step :=
+  match goal with
+  | |- flag_ok (error _) => apply flag_ok_error
+  | |- flag_ok (fail (if ?c then _ else _) _ _ _) => destruct c; apply flag_ok_fail; discriminate
+  | |- flag_ok (fail _ _ _ _) => apply flag_ok_fail; discriminate
+  | |- flag_ok (mkR _ _ _ _ _ _) => apply flag_ok_mk; split; (discriminate || reflexivity)
+  | |- flag_ok (match ?x with _ => _ end) => destruct x
+  | |- flag_ok (if ?x then _ else _) => destruct x
+  | |- flag_ok (let '(_, _) := ?x in _) => destruct x
+  end.
+
+Lemma shoot_flag fx i0 i1 i2 eL eR maxlength allowmax pL pR old old_ld s :
+  flag_ok (shoot fx i0 i1 i2 eL eR maxlength allowmax pL pR old old_ld s).
+Proof. unfold shoot. repeat flag_step. Qed.
+
+Lemma extender_status fx e seg s ok trial st s' :
+  extender fx e seg s = Some (ok, trial, st, s') ->
+  (ok = true /\ st = ACC /\ (plen trial < e_maxlength e)%nat) \/
+  (ok = false /\ st = FTX /\ (e_maxlength e <= plen trial)%nat).
+Proof.
+  unfold extender. intros H.
+  destruct (pts seg) as [|f0 ?]; [discriminate|].
+  match type of H with match ?x with _ => _ end = _ => destruct x as [[trial1 s1]|]; [|discriminate] end.
+  destruct (rev (pts trial1)) as [|fl ?]; [discriminate|].
+  match type of H with match ?x with _ => _ end = _ => destruct x as [[trial2 s2]|]; [|discriminate] end.
+  destruct (Nat.leb_spec (e_maxlength e) (plen trial2)); injection H as <- <- <- <-; [right|left]; repeat split; assumption.
+Qed.
+
+Lemma wire_fencing_flag fx e scL scR old s : flag_ok (wire_fencing fx e scL scR old s).
+Proof.
+  unfold wire_fencing.
+  destruct (wf_nframes _ _ _ =? 0)%nat; [apply flag_ok_fail; discriminate|].
+  destruct (s_draws s) as [|u ds]; [apply flag_ok_error|].
+  destruct (wf_pick _ _ _ _) as [sg|]; [|apply flag_ok_error].
+  destruct (wf_jumps _ _ _ _ _ _) as [[[seg succ] s2]|]; [|apply flag_ok_error].
+  destruct (succ =? 0)%nat; [apply flag_ok_fail; discriminate|].
+  destruct (extender fx e seg s2) as [[[[ok1 trial] st1] s3]|] eqn:Eext; [|apply flag_ok_error].
+  apply extender_status in Eext as [(-> & -> & _)|(-> & -> & _)]; cbn [negb].
+  2: apply flag_ok_fail; discriminate.
+  repeat flag_step.
+Qed.
+
+Lemma select_shoot_flag fx e old old_ld s : flag_ok (select_shoot fx e old old_ld s).
+Proof.
+  unfold select_shoot. destruct (e_move e); [apply shoot_flag|apply wire_fencing_flag|apply flag_ok_error].
+Qed.
+
+(* run_md keeps the new path exactly when the move reports ACC; otherwise the old one *)
+Lemma run_md_keeps fx e old old_ld s intfs mvs lm1 capg minus :
+  let '(r, kept, w) := run_md fx e old old_ld s intfs mvs lm1 capg minus in
+  r = select_shoot fx e old old_ld s /\
+  (r_acc r = true -> kept = r_path r /\ w = calc_cv_vector (orders (r_path r)) intfs mvs lm1 capg minus) /\
+  (r_acc r = false -> kept = old /\ w = None).
+Proof.
+  unfold run_md. pose proof (select_shoot_flag fx e old old_ld s) as F. unfold flag_ok in F.
+  destruct (r_status (select_shoot fx e old old_ld s)) eqn:Es; cbn [status_eqb];
+    (split; [reflexivity|]); split; intros H; try (split; reflexivity);
+    try (apply F in H; discriminate H);
+    try (assert (E : r_acc (select_shoot fx e old old_ld s) = true) by (apply F; reflexivity); congruence).
+Qed.
+
+(* ================================================================== shooting index *)
+
+Lemma floor_mul_range u n : 0 <= Qnum u -> Qnum u < Zpos (Qden u) -> 0 < n -> 0 <= floor_mul u n < n.
+Proof.
+  intros H0 H1 Hn. unfold floor_mul. split.
+  - apply Z.div_pos; nia.
+  - apply Z.div_lt_upper_bound; [lia|]. nia.
+Qed.
+
+Lemma shooting_index_interior u L :
+  0 <= Qnum u -> Qnum u < Zpos (Qden u) -> (3 <= L)%nat ->
+  (1 <= shooting_index u L <= L - 2)%nat.
+Proof.
+  intros H0 H1 HL. unfold shooting_index.
+  pose proof (floor_mul_range u (Z.of_nat (L - 2)) H0 H1 ltac:(lia)) as [A B]. lia.
+Qed.
+
+(* ================================================================== streams, pointwise *)
+
+Lemma first_out_split l r os : forall j,
+  first_out l r os = Some j ->
+  exists pre x post, os = pre ++ x :: post /\ length pre = j /\ outb l r x = true /\
+                     Forall (fun o => outb l r o = false) pre.
+Proof.
+  induction os as [|a os IH]; intros j H; cbn in H; [discriminate|].
+  destruct (outb l r a) eqn:Ea.
+  - injection H as <-. exists [], a, os. repeat split; auto.
+  - destruct (first_out l r os) as [j'|]; [|discriminate]. cbn in H. injection H as <-.
+    destruct (IH j' eq_refl) as (pre & x & post & -> & Hl & Hx & Hall).
+    exists (a :: pre), x, post. cbn. repeat split; auto.
+Qed.
+
+Lemma first_out_app_in l r pre x post :
+  Forall (fun o => outb l r o = false) pre -> outb l r x = true ->
+  first_out l r (pre ++ x :: post) = Some (length pre).
+Proof.
+  induction pre as [|a pre IH]; intros Hall Hx; cbn.
+  - now rewrite Hx.
+  - inversion Hall as [|? ? Ha Hp]; subst. rewrite Ha, IH by assumption. reflexivity.
+Qed.
+
+Lemma firstn_S_split {A} (pre : list A) x post : firstn (S (length pre)) (pre ++ x :: post) = pre ++ [x].
+Proof.
+  induction pre as [|a pre IH]; cbn; [reflexivity|]. f_equal. exact IH.
+Qed.
+
+Lemma number_from_nth n rv os : forall k i,
+  nth_error (number_from n k rv os) i =
+  option_map (fun o => mkF o (1000 * (Z.of_nat n + 1) + (k + Z.of_nat i)) rv 0%nat) (nth_error os i).
+Proof.
+  induction os as [|o os IH]; intros k i; cbn [number_from].
+  - now destruct i.
+  - destruct i as [|i]; cbn [nth_error option_map].
+    + do 2 f_equal. lia.
+    + rewrite IH. destruct (nth_error os i); cbn; [|reflexivity]. do 2 f_equal. lia.
+Qed.
+
+(* the k-th frame the engine offers in call number n: order os[k], tag 1000(n+1)+k *)
+Definition eng_frame (n : nat) (rv : bool) (k : nat) (o : Z) : frame :=
+  mkF o (1000 * (Z.of_nat n + 1) + Z.of_nat k) rv 0%nat.
+
+Lemma mk_stream_nth n rv o0 os k :
+  nth_error (mk_stream n rv o0 os) k = option_map (eng_frame n rv k) (nth_error (o0 :: os) k).
+Proof. unfold mk_stream. rewrite number_from_nth. unfold eng_frame. destruct (nth_error (o0 :: os) k); cbn; [|reflexivity]. do 2 f_equal. Qed.
+
+Lemma orders_mkP fs m t : orders (mkP fs m t) = map ford fs.
+Proof. reflexivity. Qed.
+
+Lemma map_tl {A B} (f : A -> B) l : map f (tl l) = tl (map f l).
+Proof. now destruct l. Qed.
+
+(* ================================================================== accepted shooting path: orders *)
+
+Record acc_orders := mkAO { ao_xb : Z; ao_mb : list Z; ao_o : Z; ao_mf : list Z; ao_xf : Z }.
+
+Definition ao_list (a : acc_orders) : list Z := ao_xb a :: rev (ao_mb a) ++ ao_o a :: ao_mf a ++ [ao_xf a].
+
+Definition inside_all (l r : Z) (os : list Z) : Prop := Forall (fun o => l <= o <= r) os.
+
+Lemma outb_false_Forall l r os :
+  Forall (fun o => outb l r o = false) os -> inside_all l r os.
+Proof. unfold inside_all. apply Forall_impl. intros o H. now apply outb_false. Qed.
+
+Lemma shape_orders fx i0 i2 maxlength old s t h r :
+  shoot_acc_shape fx i0 i2 maxlength old s t h r ->
+  i0 <= shot_order s (t_sp t) < i2 ->
+  exists a postb postf,
+    ao_o a = shot_order s (t_sp t) /\
+    h_sb h = ao_mb a ++ ao_xb a :: postb /\ h_sf h = ao_mf a ++ ao_xf a :: postf /\
+    S (length (ao_mb a)) = h_jb h /\ S (length (ao_mf a)) = h_jf h /\
+    outb i0 i2 (ao_xb a) = true /\ outb i0 i2 (ao_xf a) = true /\
+    inside_all i0 i2 (ao_mb a) /\ inside_all i0 i2 (ao_mf a) /\
+    orders (r_path r) = ao_list a /\
+    orders (t_back t) = ao_o a :: ao_mb a ++ [ao_xb a].
+Proof.
+  unfold shoot_acc_shape. set (o' := shot_order s (t_sp t)).
+  intros (Es & Hjb & Hjf & Hjb1 & Hjf1 & _ & _ & _ & Hback & _ & Hpts & _) Hk.
+  assert (Hin : outb i0 i2 o' = false) by (apply outb_false; lia).
+  cbn [first_out] in Hjb, Hjf. rewrite Hin in Hjb, Hjf.
+  destruct (first_out i0 i2 (h_sb h)) as [jb'|] eqn:Ejb; [|discriminate]. cbn in Hjb. injection Hjb as Hjb.
+  destruct (first_out i0 i2 (h_sf h)) as [jf'|] eqn:Ejf; [|discriminate]. cbn in Hjf. injection Hjf as Hjf.
+  destruct (first_out_split _ _ _ _ Ejb) as (mb & xb & postb & Esb & Lb & Xb & Ab).
+  destruct (first_out_split _ _ _ _ Ejf) as (mf & xf & postf & Esf & Lf & Xf & Af).
+  exists (mkAO xb mb o' mf xf), postb, postf. cbn [ao_o ao_mb ao_xb ao_mf ao_xf].
+  split; [reflexivity|]. split; [exact Esb|]. split; [exact Esf|].
+  split; [lia|]. split; [lia|]. split; [exact Xb|]. split; [exact Xf|].
+  split; [now apply outb_false_Forall|]. split; [now apply outb_false_Forall|].
+  assert (FB : map ford (firstn (S (h_jb h)) (mk_stream (s_ncall s) true o' (h_sb h))) = o' :: mb ++ [xb]).
+  { rewrite <- firstn_map, mk_stream_orders, Esb, <- Hjb, <- Lb.
+    change (o' :: mb ++ xb :: postb) with ((o' :: mb) ++ xb :: postb).
+    change (S (S (length mb))) with (S (length (o' :: mb))). now rewrite firstn_S_split. }
+  assert (FF : map ford (firstn (S (h_jf h)) (mk_stream (S (s_ncall s)) false o' (h_sf h))) = o' :: mf ++ [xf]).
+  { rewrite <- firstn_map, mk_stream_orders, Esf, <- Hjf, <- Lf.
+    change (o' :: mf ++ xf :: postf) with ((o' :: mf) ++ xf :: postf).
+    change (S (S (length mf))) with (S (length (o' :: mf))). now rewrite firstn_S_split. }
+  split.
+  - unfold orders, ao_list. rewrite Hpts, map_app, map_rev, map_tl, FB, FF. cbn [ao_o ao_mb ao_xb ao_mf ao_xf tl].
+    cbn [rev]. rewrite rev_app_distr. cbn [rev app]. rewrite <- !app_assoc. reflexivity.
+  - rewrite Hback. rewrite orders_mkP. exact FB.
+Qed.
+
+(* ================================================================== small facts *)
+
+Lemma floor_div_le n r k : 0 < Qnum r -> (k <= floor_div n r <-> k * Qnum r <= n * Zpos (Qden r)).
+Proof.
+  intros Hr. unfold floor_div. split; intros H.
+  - pose proof (Z.mul_div_le (n * Zpos (Qden r)) (Qnum r) Hr). nia.
+  - apply Z.div_le_lower_bound; [exact Hr|]. lia.
+Qed.
+
+Lemma check_interfaces_some p i0 irest :
+  orders p <> [] -> exists r, check_interfaces p (i0 :: irest) = Some r.
+Proof.
+  intros H. unfold check_interfaces, ordermin, ordermax. destruct (orders p) as [|x l]; [congruence|].
+  destruct (argmin_from x 0%nat 1%nat l), (argmax_from x 0%nat 1%nat l). eauto.
+Qed.
+
+Lemma check_interfaces_orders p q intf : orders p = orders q -> check_interfaces p intf = check_interfaces q intf.
+Proof. intros H. unfold check_interfaces, ordermin, ordermax, start_point, end_point. now rewrite H. Qed.
+
+Lemma final_checks_orders i0 i1 i2 eL eR pL p q :
+  orders p = orders q -> final_checks i0 i1 i2 eL eR pL p = final_checks i0 i1 i2 eL eR pL q.
+Proof. intros H. unfold final_checks. now rewrite (check_interfaces_orders p q _ H). Qed.
+
+(* what final_checks = ACC says about the orders of a non-empty path *)
+Lemma final_checks_acc i0 i1 i2 eL eR pL p first lastv :
+  final_checks i0 i1 i2 eL eR pL p = ACC ->
+  hd_error (orders p) = Some first -> hd_error (rev (orders p)) = Some lastv ->
+  (eL && eR = false -> exists x y, In x (orders p) /\ In y (orders p) /\ x < i1 <= y) /\
+  (i0 <= i1 <= i2 -> pL = false -> i0 < first /\ i0 < lastv).
+Proof.
+  intros Hfc Hf Hl. unfold final_checks in Hfc.
+  assert (Hne : orders p <> []) by (intros E; rewrite E in Hf; discriminate).
+  destruct (check_interfaces_some p i0 [i1; i2] Hne) as (ci & Eci). rewrite Eci in Hfc.
+  destruct (check_interfaces_spec _ _ _ Eci)
+    as (omin & omax & f' & l' & left & right & Imin & Imax & Hext & Hf' & Hl' & Ileft & Iright & Hlr & Hcross & Hnth & _ & Hst & Hen).
+  rewrite Hf in Hf'. injection Hf' as <-. rewrite Hl in Hl'. injection Hl' as <-.
+  destruct (negb pL && (is_SL (ci_start ci) || is_SL (ci_end ci))) eqn:E1; [discriminate|].
+  destruct (negb (eL && eR) && negb (nth 1 (ci_cross ci) false)) eqn:E2; [discriminate|].
+  split.
+  - intros Hb. rewrite Hb in E2. cbn [negb andb] in E2. apply negb_false_iff in E2.
+    exists omin, omax. split; [exact Imin|]. split; [exact Imax|].
+    apply (Hnth 1%nat i1 eq_refl). rewrite Hcross in *. cbn [map nth nth_error] in *. now rewrite E2.
+  - intros Hord HpL. subst pL. cbn [negb andb] in E1. apply orb_false_iff in E1 as [A B].
+    assert (left = i0).
+    { assert (left <= i0) by (apply Hlr; cbn; auto).
+      cbn in Ileft. destruct Ileft as [<-|[<-|[<-|[]]]]; lia. }
+    subst left. rewrite Hst in A. rewrite Hen in B. cbn [is_SL] in A, B. unfold classify in A, B.
+    destruct (Z.leb_spec first i0); [discriminate|]. destruct (Z.leb_spec lastv i0); [discriminate|]. lia.
+Qed.
+
+Lemma hd_error_ao a : hd_error (ao_list a) = Some (ao_xb a).
+Proof. reflexivity. Qed.
+
+Lemma last_ao a : hd_error (rev (ao_list a)) = Some (ao_xf a).
+Proof.
+  unfold ao_list.
+  assert (E : ao_xb a :: rev (ao_mb a) ++ ao_o a :: ao_mf a ++ [ao_xf a] =
+              (ao_xb a :: rev (ao_mb a) ++ ao_o a :: ao_mf a) ++ [ao_xf a]).
+  { cbn. f_equal. rewrite <- app_assoc. reflexivity. }
+  rewrite E, rev_app_distr. reflexivity.
+Qed.
+
+Lemma ao_length a : length (ao_list a) = (S (length (ao_mb a)) + S (length (ao_mf a)) + 1)%nat.
+Proof. unfold ao_list. cbn [length]. rewrite app_length, rev_length. cbn [length]. rewrite app_length. cbn. lia. Qed.
+
+Lemma ao_nth_shoot a : nth_error (ao_list a) (S (length (ao_mb a))) = Some (ao_o a).
+Proof.
+  unfold ao_list. cbn [nth_error]. rewrite nth_error_app2 by (rewrite rev_length; lia).
+  rewrite rev_length, Nat.sub_diag. reflexivity.
+Qed.
+
+Lemma end_point_last p l r x :
+  l <= r -> hd_error (rev (orders p)) = Some x -> end_point p l r = Some (classify l r x).
+Proof.
+  intros Hlr H. unfold end_point. destruct (Z.ltb_spec r l); [lia|].
+  destruct (rev (orders p)); [discriminate|]. cbn in H. now injection H as ->.
+Qed.
+
+(* ================================================================== validity of an accepted shooting path *)
+
+Record shoot_valid (fx : bool) (i0 i1 i2 : Z) (eL eR : bool) (maxlength : nat) (allowmax : bool)
+       (pL pR : bool) (old : path) (old_ld : bool) (s : src) (r : result) (a : acc_orders) : Prop := {
+  sv_orders : orders (r_path r) = ao_list a;
+  (* (i) both end points are outside [i0, i2] (the code's own stop rule), the start lies on a side the
+         start condition allows, and without "L" neither end is on the left *)
+  sv_start_out : ao_xb a < i0 \/ i2 < ao_xb a;
+  sv_end_out : ao_xf a < i0 \/ i2 < ao_xf a;
+  sv_start_side : in_sc pL pR (Some (classify i0 i2 (ao_xb a))) = true;
+  sv_no_left : i0 <= i1 <= i2 -> pL = false -> i2 < ao_xb a /\ i2 < ao_xf a;
+  (* (ii) every other frame is inside *)
+  sv_inside : inside_all i0 i2 (rev (ao_mb a) ++ ao_o a :: ao_mf a);
+  sv_shot_inside : i0 <= ao_o a < i2;
+  (* (iii) the ensemble's interface is crossed *)
+  sv_cross : eL && eR = false -> exists x y, In x (ao_list a) /\ In y (ao_list a) /\ x < i1 <= y;
+  (* (iv) length limits *)
+  sv_len : (plen (r_path r) <= maxlength)%nat /\ (3 <= plen (r_path r))%nat /\ maxlen (r_path r) = maxlength;
+  sv_len_drawn : old_ld || allowmax = false ->
+      exists u rr ds, s_draws s = u :: rr :: ds /\ 0 < Qnum rr /\
+        (Z.of_nat (plen (r_path r)) - 2) * Qnum rr <= (Z.of_nat (plen old) - 2) * Zpos (Qden rr);
+  (* (v) the shooting point: index in the old path, index in the new one *)
+  sv_index : exists u ds sp, s_draws s = u :: ds /\ g_a (r_gen r) = shooting_index u (plen old) /\
+      (1 <= g_a (r_gen r) < plen old)%nat /\
+      nth_error (pts old) (g_a (r_gen r)) = Some sp /\ ao_o a = shot_order s sp /\ g_order (r_gen r) = ao_o a /\
+      torigin (r_path r) = torigin old + Z.of_nat (g_a (r_gen r)) - Z.of_nat (g_b (r_gen r));
+  sv_shot_at : g_b (r_gen r) = S (length (ao_mb a)) /\ nth_error (orders (r_path r)) (g_b (r_gen r)) = Some (ao_o a);
+  (* (vi) time order: position p holds the frame the engine produced |p - g_b| steps away from the
+          shooting point, backward call (number n) before it, forward call (number n+1) after it *)
+  sv_time : exists sb sf rest, s_streams s = sb :: sf :: rest /\
+      let jb := g_b (r_gen r) in
+      (forall p, (p <= jb)%nat ->
+         nth_error (pts (r_path r)) p =
+         option_map (eng_frame (s_ncall s) true (jb - p)) (nth_error (ao_o a :: sb) (jb - p))) /\
+      (forall p, (jb < p < plen (r_path r))%nat ->
+         nth_error (pts (r_path r)) p =
+         option_map (eng_frame (S (s_ncall s)) false (p - jb)) (nth_error (ao_o a :: sf) (p - jb))) /\
+      (forall p, (p < plen (r_path r))%nat -> nth_error (pts (r_path r)) p <> None);
+  sv_flag : r_acc r = true /\ r_weight r = 1
+}.
+
+Lemma shoot_acc_valid fx i0 i1 i2 eL eR maxlength allowmax pL pR old old_ld s :
+  r_status (shoot fx i0 i1 i2 eL eR maxlength allowmax pL pR old old_ld s) = ACC ->
+  exists a, shoot_valid fx i0 i1 i2 eL eR maxlength allowmax pL pR old old_ld s
+              (shoot fx i0 i1 i2 eL eR maxlength allowmax pL pR old old_ld s) a.
+Proof.
+  intros Hacc. destruct (shoot_acc_inv _ _ _ _ _ _ _ _ _ _ _ _ _ Hacc) as (t & Hfacts).
+  destruct (shoot_acc_struct _ _ _ _ _ _ _ _ _ _ _ _ _ _ _ Hfacts) as (h & Hshape).
+  set (R := shoot fx i0 i1 i2 eL eR maxlength allowmax pL pR old old_ld s) in *.
+  pose proof Hfacts as (Hd & HL & Hsp & Hk & Hml & Hb & Hep & Hsc & Hf & Hfc & HR).
+  destruct (shape_orders _ _ _ _ _ _ _ _ _ Hshape Hk)
+    as (a & postb & postf & Ho & Esb & Esf & Ljb & Ljf & Xb & Xf & Ib & If & Hord & Hbord).
+  pose proof Hshape as (Es & Hjb & Hjf & Hjb1 & Hjf1 & Hlb & Hlf & Hmle & Hback & Hforw & Hpts & Hplen & Hmaxl & Htor & Hsrc).
+  set (o' := shot_order s (t_sp t)) in *.
+  assert (HRpath : r_path R = paste (t_back t) (t_forw t) true (Some maxlength)) by (rewrite HR; reflexivity).
+  assert (HRgen : r_gen R = mkG o' (shooting_index (t_u t) (plen old)) (plen (t_back t) - 1)) by (rewrite HR; reflexivity).
+  assert (Hplb : plen (t_back t) = S (h_jb h)).
+  { unfold plen. rewrite <- (map_length ford). change (map ford (pts (t_back t))) with (orders (t_back t)).
+    rewrite Hbord. cbn [length]. rewrite app_length. cbn. lia. }
+  assert (Hgb : g_b (r_gen R) = S (length (ao_mb a))) by (rewrite HRgen; cbn [g_b]; lia).
+  exists a. constructor.
+  - exact Hord.
+  - now apply outb_true.
+  - now apply outb_true.
+  - assert (E : end_point (t_back t) i0 i2 = Some (classify i0 i2 (ao_xb a))).
+    { apply end_point_last; [lia|]. rewrite Hbord.
+      change (ao_o a :: ao_mb a ++ [ao_xb a]) with ((ao_o a :: ao_mb a) ++ [ao_xb a]). rewrite rev_app_distr. reflexivity. }
+    rewrite E in Hep. injection Hep as Hep. rewrite Hep. exact Hsc.
+  - intros Hint HpL.
+    rewrite <- HRpath in Hfc.
+    destruct (final_checks_acc _ _ _ _ _ _ _ (ao_xb a) (ao_xf a) Hfc) as [_ HH].
+    + rewrite Hord. apply hd_error_ao.
+    + rewrite Hord. apply last_ao.
+    + specialize (HH Hint HpL). apply outb_true in Xb, Xf. lia.
+  - unfold inside_all in *. apply Forall_app. split; [apply Forall_rev; exact Ib|].
+    constructor; [rewrite Ho; fold o'; lia|exact If].
+  - rewrite Ho. exact Hk.
+  - intros Hb2. rewrite <- HRpath in Hfc.
+    destruct (final_checks_acc _ _ _ _ _ _ _ (ao_xb a) (ao_xf a) Hfc) as [HH _].
+    + rewrite Hord. apply hd_error_ao.
+    + rewrite Hord. apply last_ao.
+    + rewrite <- Hord. exact (HH Hb2).
+  - split; [|split; [|exact Hmaxl]].
+    + rewrite Hplen. pose proof (lim_le fx (t_ml t - 1)). pose proof (lim_le fx (t_ml t - S (h_jb h) + 1)). lia.
+    + rewrite Hplen. lia.
+  - intros Hlim. apply choose_maxlen_spec in Hml as (_ & _ & _ & _ & _ & Hdr).
+    destruct (Hdr Hlim) as (rr & ds' & Eds & Hrr & Hmlv & _).
+    exists (t_u t), rr, ds'. split; [rewrite Hd, Eds; reflexivity|]. split; [exact Hrr|].
+    rewrite Hplen.
+    pose proof (lim_le fx (t_ml t - 1)). pose proof (lim_le fx (t_ml t - S (h_jb h) + 1)).
+    assert (Hle : (S (h_jb h) + h_jf h <= t_ml t)%nat) by lia.
+    rewrite Hmlv in Hle. unfold draw_maxlen in Hle.
+    assert (Hfd : Z.of_nat (S (h_jb h) + h_jf h) - 2 <= floor_div (Z.of_nat (plen old - 2)) rr) by lia.
+    apply floor_div_le in Hfd; [|exact Hrr]. lia.
+  - exists (t_u t), (t_ds t), (t_sp t). rewrite HRgen. cbn [g_a g_b g_order].
+    split; [exact Hd|]. split; [reflexivity|]. split.
+    + split; [unfold shooting_index; lia|]. apply nth_error_Some. rewrite Hsp. discriminate.
+    + split; [exact Hsp|]. split; [exact Ho|]. split; [now rewrite Ho|].
+      rewrite Htor, Hplb. lia.
+  - split; [exact Hgb|]. rewrite Hgb, Hord. apply ao_nth_shoot.
+  - exists (h_sb h), (h_sf h), (h_rest h). split; [exact Es|]. cbv zeta.
+    rewrite Hgb, Ljb, Ho. fold o'.
+    assert (LB : length (firstn (S (h_jb h)) (mk_stream (s_ncall s) true o' (h_sb h))) = S (h_jb h)).
+    { rewrite firstn_length, mk_stream_length. apply first_out_lt in Hjb. cbn [length] in Hjb. lia. }
+    assert (LF : length (tl (firstn (S (h_jf h)) (mk_stream (S (s_ncall s)) false o' (h_sf h)))) = h_jf h).
+    { cbn [firstn mk_stream number_from tl]. rewrite firstn_length, number_from_length.
+      apply first_out_lt in Hjf. cbn [length] in Hjf. lia. }
+    split; [|split].
+    + intros p Hp. rewrite Hpts. rewrite nth_error_app1 by (rewrite rev_length, LB; lia).
+      rewrite nth_error_rev by (rewrite LB; lia). rewrite LB.
+      rewrite nth_error_firstn' by lia. rewrite mk_stream_nth.
+      replace (S (h_jb h) - S p)%nat with (h_jb h - p)%nat by lia. reflexivity.
+    + intros p Hp. rewrite Hplen in Hp. rewrite Hpts. rewrite nth_error_app2 by (rewrite rev_length, LB; lia).
+      rewrite rev_length, LB.
+      assert (Etl : forall (A : Type) (l : list A) k, nth_error (tl l) k = nth_error l (S k)) by (intros A [|x l] k; [now destruct k|reflexivity]).
+      rewrite Etl. rewrite nth_error_firstn' by lia. rewrite mk_stream_nth.
+      replace (S (p - S (h_jb h)))%nat with (p - h_jb h)%nat by lia. reflexivity.
+    + intros p Hp. apply nth_error_Some. exact Hp.
+  - rewrite HR. split; reflexivity.
+Qed.
+
+Definition trial_orders (o' : Z) (sb sf : list Z) (jb jf : nat) : list Z :=
+  rev (firstn (S jb) (o' :: sb)) ++ tl (firstn (S jf) (o' :: sf)).
+
+Definition path_of_orders (os : list Z) : path := mkP (map (fun o => mkF o 0 false 0%nat) os) 0%nat 0.
+
+(* the trial path of unlimited length would be a valid path of the ensemble: the backward part ends on
+   an allowed side and the three final tests of shoot pass *)
+Definition trial_valid (i0 i1 i2 : Z) (eL eR pL pR : bool) (os : list Z) : Prop :=
+  (exists first, hd_error os = Some first /\ in_sc pL pR (Some (classify i0 i2 first)) = true) /\
+  final_checks i0 i1 i2 eL eR pL (path_of_orders os) = ACC.
+
+Definition delta (fx : bool) : nat := if fx then 0%nat else 1%nat.
+
+Lemma lim_delta fx ml : lim fx ml = (ml - delta fx)%nat.
+Proof. unfold lim, delta. destruct fx; lia. Qed.
+
+Lemma shoot_status_reach fx i0 i1 i2 eL eR maxlength pL pR old s u rr ds sp sb sf rest jb jf :
+  s_draws s = u :: rr :: ds -> 0 < Qnum rr ->
+  (3 <= plen old)%nat ->
+  nth_error (pts old) (shooting_index u (plen old)) = Some sp ->
+  i0 <= shot_order s sp < i2 ->
+  s_streams s = sb :: sf :: rest ->
+  first_out i0 i2 (shot_order s sp :: sb) = Some jb -> first_out i0 i2 (shot_order s sp :: sf) = Some jf ->
+  (jb + jf + 1 <= maxlength)%nat ->
+  trial_valid i0 i1 i2 eL eR pL pR (trial_orders (shot_order s sp) sb sf jb jf) ->
+  (r_status (shoot fx i0 i1 i2 eL eR maxlength false pL pR old false s) = ACC <->
+   (jb + jf + 1 + delta fx <= draw_maxlen (plen old) rr maxlength)%nat).
+Proof.
+  intros Hd Hrr HL Hsp Hk Es Hjb Hjf Hmax [(first & Hfirst & Hside) Hfc].
+  set (o' := shot_order s sp) in *.
+  assert (Hin : outb i0 i2 o' = false) by (apply outb_false; lia).
+  pose proof (first_out_inside_head _ _ _ _ _ Hin Hjb) as Hjb1.
+  pose proof (first_out_inside_head _ _ _ _ _ Hin Hjf) as Hjf1.
+  unfold shoot. rewrite Hd.
+  destruct (Nat.ltb_spec (plen old) 3) as [?|_]; [lia|].
+  rewrite Hsp. rewrite kick_split. cbv beta iota. fold (shot_order s sp). fold o'.
+  destruct (Z.leb_spec i0 o') as [_|?]; [|lia]. destruct (Z.ltb_spec o' i2) as [_|?]; [|lia].
+  cbn [andb negb orb].
+  destruct (Z.leb_spec (Qnum rr) 0) as [?|_]; [lia|].
+  set (ml := draw_maxlen (plen old) rr maxlength).
+  set (t0 := torigin old + Z.of_nat (shooting_index u (plen old))).
+  rewrite run_propagate_eq. cbn [s_streams s_ncall s_draws s_kicks]. rewrite Es.
+  destruct (Nat.eqb_spec (ml - 1) 0) as [E0|E0].
+  { cbn [error r_status]. split; [discriminate|]. intros H. lia. }
+  rewrite (prop_empty_complete fx (ml - 1) t0 _ i0 i2 jb); [|rewrite mk_stream_orders; exact Hjb|lia].
+  rewrite lim_delta.
+  destruct (Nat.leb_spec (S jb) (ml - 1 - delta fx)) as [Hb|Hb].
+  2:{ cbn [negb]. split; [destruct (maxlength - 1 <=? _)%nat; discriminate|]. intros H. lia. }
+  cbn [negb].
+  set (B := mk_stream (s_ncall s) true o' sb).
+  assert (LB : length (firstn (S jb) B) = S jb).
+  { rewrite firstn_length. unfold B. rewrite mk_stream_length. apply first_out_lt in Hjb. cbn [length] in Hjb. lia. }
+  assert (OB : map ford (firstn (S jb) B) = firstn (S jb) (o' :: sb)).
+  { rewrite <- firstn_map. unfold B. now rewrite mk_stream_orders. }
+  set (back := mkP (firstn (S jb) B) (ml - 1) t0).
+  assert (Hpb : plen back = S jb) by (unfold plen, back; cbn [pts]; exact LB).
+  assert (Hob : orders back = firstn (S jb) (o' :: sb)) by exact OB.
+  assert (Hlast : hd_error (rev (orders back)) = Some first).
+  { rewrite Hob. unfold trial_orders in Hfirst.
+    destruct (rev (firstn (S jb) (o' :: sb))) as [|x l] eqn:Er; [|exact Hfirst].
+    apply (f_equal (@length Z)) in Er. rewrite rev_length, <- OB, map_length, LB in Er. discriminate. }
+  rewrite (end_point_last back i0 i2 first) by (try lia; exact Hlast).
+  rewrite Hside. cbn [negb]. rewrite Hpb.
+  rewrite run_propagate_eq. cbn [s_streams s_ncall s_draws s_kicks].
+  destruct (Nat.eqb_spec (ml - S jb + 1) 0) as [E1|E1]; [lia|].
+  rewrite (prop_empty_complete fx (ml - S jb + 1) t0 _ i0 i2 jf); [|rewrite mk_stream_orders; exact Hjf|lia].
+  rewrite lim_delta.
+  destruct (Nat.leb_spec (S jf) (ml - S jb + 1 - delta fx)) as [Hf|Hf].
+  2:{ cbn [negb]. split; [destruct (_ =? maxlength)%nat; discriminate|]. intros H. lia. }
+  cbn [negb].
+  set (F := mk_stream (S (s_ncall s)) false o' sf).
+  set (forw := mkP (firstn (S jf) F) (ml - S jb + 1) t0).
+  set (trial := paste back forw true (Some maxlength)).
+  assert (LF : length (firstn (S jf) F) = S jf).
+  { rewrite firstn_length. unfold F. rewrite mk_stream_length. apply first_out_lt in Hjf. cbn [length] in Hjf. lia. }
+  assert (Hot : orders trial = trial_orders o' sb sf jb jf).
+  { unfold trial, orders. rewrite paste_untruncated.
+    - unfold forw_part, forw, back. cbn [pts]. rewrite map_app, map_rev, map_tl, OB.
+      rewrite <- firstn_map. unfold F. rewrite mk_stream_orders. reflexivity.
+    - rewrite forw_part_length, Hpb. unfold plen, forw. cbn [pts]. rewrite LF. lia. }
+  assert (Hfc' : final_checks i0 i1 i2 eL eR pL trial = ACC).
+  { rewrite (final_checks_orders _ _ _ _ _ _ trial (path_of_orders (trial_orders o' sb sf jb jf))); [exact Hfc|].
+    rewrite Hot. unfold path_of_orders. symmetry. apply orders_mk. }
+  unfold final_checks in Hfc'.
+  destruct (match check_interfaces trial [i0; i1; i2] with
+            | Some r => (ci_start r, ci_end r, nth 1 (ci_cross r) false)
+            | None => (None, None, false)
+            end) as [[cst cen] cmid].
+  destruct (negb pL && (is_SL cst || is_SL cen)); [discriminate|].
+  destruct (negb (eL && eR) && negb cmid); [discriminate|].
+  cbn [r_status]. split; [intros _; lia|reflexivity].
+Qed.
+
+Lemma draw_maxlen_ge L rr maxlength k :
+  0 < Qnum rr -> (2 <= L)%nat -> (3 <= k)%nat ->
+  ((k <= draw_maxlen L rr maxlength)%nat <->
+   (k <= maxlength)%nat /\ (Z.of_nat k - 2) * Qnum rr <= (Z.of_nat L - 2) * Zpos (Qden rr)).
+Proof.
+  intros Hr HL Hk. unfold draw_maxlen.
+  pose proof (floor_div_le (Z.of_nat (L - 2)) rr (Z.of_nat k - 2) Hr) as F.
+  replace (Z.of_nat (L - 2)) with (Z.of_nat L - 2) in * by lia.
+  split.
+  - intros H. split; [lia|]. apply F. lia.
+  - intros [H1 H2]. apply F in H2. lia.
+Qed.
+
+(* the acceptance rule of the repaired code: r <= n_old / n_new *)
+Theorem shoot_accept_rule i0 i1 i2 eL eR maxlength pL pR old s u rr ds sp sb sf rest jb jf :
+  s_draws s = u :: rr :: ds -> 0 < Qnum rr ->
+  (3 <= plen old)%nat ->
+  nth_error (pts old) (shooting_index u (plen old)) = Some sp ->
+  i0 <= shot_order s sp < i2 ->
+  s_streams s = sb :: sf :: rest ->
+  first_out i0 i2 (shot_order s sp :: sb) = Some jb -> first_out i0 i2 (shot_order s sp :: sf) = Some jf ->
+  (jb + jf + 1 <= maxlength)%nat ->
+  trial_valid i0 i1 i2 eL eR pL pR (trial_orders (shot_order s sp) sb sf jb jf) ->
+  (r_status (shoot true i0 i1 i2 eL eR maxlength false pL pR old false s) = ACC <->
+   (rr <= (Z.of_nat (plen old) - 2) # Z.to_pos (Z.of_nat (jb + jf + 1) - 2))%Q).
+Proof.
+  intros Hd Hrr HL Hsp Hk Es Hjb Hjf Hmax Hv.
+  rewrite (shoot_status_reach true _ _ _ _ _ _ _ _ _ _ _ _ _ _ _ _ _ _ _ Hd Hrr HL Hsp Hk Es Hjb Hjf Hmax Hv).
+  assert (Hin : outb i0 i2 (shot_order s sp) = false) by (apply outb_false; lia).
+  pose proof (first_out_inside_head _ _ _ _ _ Hin Hjb). pose proof (first_out_inside_head _ _ _ _ _ Hin Hjf).
+  cbn [delta]. rewrite Nat.add_0_r. rewrite draw_maxlen_ge by (try exact Hrr; lia).
+  unfold Qle. cbn [Qnum Qden]. rewrite Z2Pos.id by lia. split; [intros [_ H']|intros H'; split]; lia.
+Qed.
+
+(* the rule before the repair of add_to_path: one more frame is demanded *)
+Theorem shoot_accept_rule_old i0 i1 i2 eL eR maxlength pL pR old s u rr ds sp sb sf rest jb jf :
+  s_draws s = u :: rr :: ds -> 0 < Qnum rr ->
+  (3 <= plen old)%nat ->
+  nth_error (pts old) (shooting_index u (plen old)) = Some sp ->
+  i0 <= shot_order s sp < i2 ->
+  s_streams s = sb :: sf :: rest ->
+  first_out i0 i2 (shot_order s sp :: sb) = Some jb -> first_out i0 i2 (shot_order s sp :: sf) = Some jf ->
+  (jb + jf + 2 <= maxlength)%nat ->
+  trial_valid i0 i1 i2 eL eR pL pR (trial_orders (shot_order s sp) sb sf jb jf) ->
+  (r_status (shoot false i0 i1 i2 eL eR maxlength false pL pR old false s) = ACC <->
+   (rr <= (Z.of_nat (plen old) - 2) # Z.to_pos (Z.of_nat (jb + jf + 1) - 1))%Q).
+Proof.
+  intros Hd Hrr HL Hsp Hk Es Hjb Hjf Hmax Hv.
+  assert (Hmax' : (jb + jf + 1 <= maxlength)%nat) by lia.
+  rewrite (shoot_status_reach false _ _ _ _ _ _ _ _ _ _ _ _ _ _ _ _ _ _ _ Hd Hrr HL Hsp Hk Es Hjb Hjf Hmax' Hv).
+  assert (Hin : outb i0 i2 (shot_order s sp) = false) by (apply outb_false; lia).
+  pose proof (first_out_inside_head _ _ _ _ _ Hin Hjb). pose proof (first_out_inside_head _ _ _ _ _ Hin Hjf).
+  cbn [delta]. rewrite draw_maxlen_ge by (try exact Hrr; lia).
+  replace (Z.of_nat (jb + jf + 1 + 1) - 2) with (Z.of_nat (jb + jf + 1) - 1) by lia.
+  unfold Qle. cbn [Qnum Qden]. rewrite Z2Pos.id by lia. split; [intros [_ H']|intros H'; split]; lia.
+Qed.
+
+(* witness (lead L11): old path of 7 frames, r = 1/2, trial path of 12 frames *)
+Definition l11_old : path :=
+  mkP [mkF 0 0 false 0%nat; mkF 2 1 false 0%nat; mkF 2 2 false 0%nat; mkF 2 3 false 0%nat;
+       mkF 2 4 false 0%nat; mkF 2 5 false 0%nat; mkF 0 6 false 0%nat] 100%nat 0.
+Definition l11_src : src := mkS [0#1; 1#2]%Q [] [[0]; [2;2;2;2;2;2;2;2;2;5]] 0%nat.
+
+Lemma l11_old_rule_rejects :
+  r_status (shoot false 1 3 4 true false 100 false true false l11_old false l11_src) = FTL.
+Proof. vm_compute. reflexivity. Qed.
+
+Lemma l11_new_rule_accepts :
+  r_status (shoot true 1 3 4 true false 100 false true false l11_old false l11_src) = ACC /\
+  orders (r_path (shoot true 1 3 4 true false 100 false true false l11_old false l11_src)) = [0;2;2;2;2;2;2;2;2;2;2;5].
+Proof. vm_compute. split; reflexivity. Qed.
+
+(* ================================================================== one propagate call from an inside point *)
+
+Lemma run_propagate_short fx ml t0 rv o0 l r s p ok s' :
+  run_propagate fx ml t0 rv o0 l r s = Some (p, ok, s') ->
+  outb l r o0 = false ->
+  (1 <= plen p)%nat /\ maxlen p = ml /\
+  ((plen p < ml)%nat ->
+   exists m x, orders p = o0 :: m ++ [x] /\ inside_all l r m /\ outb l r x = true).
+Proof.
+  intros H Hin. rewrite run_propagate_eq in H.
+  destruct (s_streams s) as [|os rest]; [discriminate|].
+  destruct (Nat.eqb_spec ml 0) as [E0|E0]; [discriminate|].
+  destruct (prop_empty fx ml t0 (mk_stream (s_ncall s) rv o0 os) l r) as [[p' ok']|] eqn:Ep; [|discriminate].
+  injection H as <- <- _.
+  destruct ok'.
+  - apply prop_empty_success in Ep as (j & Hj & _ & ->). rewrite mk_stream_orders in Hj.
+    pose proof (first_out_lt _ _ _ _ Hj) as Hlt. cbn [length] in Hlt.
+    assert (Hlen : length (firstn (S j) (mk_stream (s_ncall s) rv o0 os)) = S j).
+    { rewrite firstn_length, mk_stream_length. lia. }
+    split; [unfold plen; cbn [pts]; lia|]. split; [reflexivity|]. intros _.
+    cbn [first_out] in Hj. rewrite Hin in Hj.
+    destruct (first_out l r os) as [j'|] eqn:Ej; [|discriminate]. cbn in Hj. injection Hj as <-.
+    destruct (first_out_split _ _ _ _ Ej) as (m & x & post & -> & Lm & Hx & Hall).
+    exists m, x. split; [|split; [now apply outb_false_Forall|exact Hx]].
+    rewrite orders_mkP, <- firstn_map, mk_stream_orders, <- Lm.
+    change (o0 :: m ++ x :: post) with ((o0 :: m) ++ x :: post).
+    change (S (S (length m))) with (S (length (o0 :: m))). now rewrite firstn_S_split.
+  - destruct (prop_empty_fail_len _ _ _ _ _ _ _ Ep ltac:(lia)) as [A B].
+    split; [lia|]. split; [exact B|]. intros; lia.
+Qed.
+
+(* ================================================================== the jump loop *)
+
+(* a segment accepted by the sub-ensemble (i1, i1, cap): the copy of an accepted shooting path *)
+Definition wf_segment (fx : bool) (e : ensemble) (seg : path) : Prop :=
+  exists segk sk,
+    let r := shoot fx (e_i1 e) (e_i1 e) (cap_of e) (e_scL e) (e_scR e) (e_maxlength e) true true true segk false sk in
+    r_status r = ACC /\ seg = copy 0 (r_path r).
+
+Lemma wf_jumps_inv fx e : forall nj seg0 succ0 s seg succ s',
+  wf_jumps fx e nj seg0 succ0 s = Some (seg, succ, s') ->
+  (succ0 <= succ)%nat /\ ((succ0 < succ)%nat \/ wf_segment fx e seg0 -> wf_segment fx e seg) /\
+  (succ0 = succ -> seg = seg0).
+Proof.
+  induction nj as [|nj IH]; intros seg0 succ0 s seg succ s' H; cbn [wf_jumps] in H.
+  - injection H as <- <- <-. split; [lia|]. split; [intros [?|?]; [lia|assumption]|reflexivity].
+  - set (r := shoot fx (e_i1 e) (e_i1 e) (cap_of e) (e_scL e) (e_scR e) (e_maxlength e) true true true seg0 false s) in *.
+    pose proof (shoot_flag fx (e_i1 e) (e_i1 e) (cap_of e) (e_scL e) (e_scR e) (e_maxlength e) true true true seg0 false s) as F.
+    fold r in F. unfold flag_ok in F.
+    assert (H' : (if r_acc r then wf_jumps fx e nj (copy 0 (r_path r)) (S succ0) (r_src r)
+                  else wf_jumps fx e nj seg0 succ0 (r_src r)) = Some (seg, succ, s')).
+    { destruct (r_status r); try exact H; discriminate H. }
+    clear H. destruct (r_acc r) eqn:Eacc.
+    + apply IH in H' as (A & B & C). split; [lia|]. split; [|intros; lia].
+      intros _. apply B. right. exists seg0, s. fold r. split; [apply F; reflexivity|reflexivity].
+    + apply IH in H' as (A & B & C). split; [lia|]. split; [exact B|exact C].
+Qed.
+
+(* ================================================================== orders of copies and reversals *)
+
+Lemma orders_erase p : orders p = map (fun x => fst (fst x)) (map erase (pts p)).
+Proof. unfold orders. rewrite map_map. reflexivity. Qed.
+
+Lemma copy_orders next p : (plen p <= maxlen p)%nat -> orders (copy next p) = orders p /\ maxlen (copy next p) = maxlen p.
+Proof.
+  intros H. destruct (copy_frames_same next p H) as (A & B & _). split; [|exact B].
+  now rewrite !orders_erase, A.
+Qed.
+
+Lemma eflip_fst l : map (fun x : Z * Z * bool => fst (fst x)) (map eflip l) = map (fun x => fst (fst x)) l.
+Proof. rewrite map_map. apply map_ext. intros [[a b] c]. reflexivity. Qed.
+
+Lemma reverse_orders next p rv : (plen p <= maxlen p)%nat -> orders (reverse next p rv) = rev (orders p).
+Proof.
+  intros H. pose proof (reverse_frames next p rv H) as A. rewrite !orders_erase, A.
+  destruct rv; [rewrite eflip_fst|]; now rewrite map_rev.
+Qed.
+
+(* ================================================================== extender *)
+
+(* how one side was completed: nothing added because the end frame already is not in [i0, i2), or the
+   frames of a trajectory that leaves [i0, i2] *)
+Definition ext_side (i0 i2 : Z) (endv : Z) (added : list Z) : Prop :=
+  (added = [] /\ (endv < i0 \/ i2 <= endv)) \/
+  (i0 <= endv < i2 /\ exists m x, added = m ++ [x] /\ inside_all i0 i2 m /\ outb i0 i2 x = true).
+
+Lemma in_range_b i0 i2 x : (i0 <=? x) && (x <? i2) = true <-> i0 <= x < i2.
+Proof. rewrite andb_true_iff, Z.leb_le, Z.ltb_lt. tauto. Qed.
+
+Lemma removelast_map {A B} (f : A -> B) l : map f (removelast l) = removelast (map f l).
+Proof.
+  induction l as [|a l IH]; [reflexivity|]. destruct l as [|b l]; [reflexivity|].
+  cbn [removelast map] in *. now rewrite IH.
+Qed.
+
+Lemma extender_acc fx e seg s trial s' first lastv :
+  extender fx e seg s = Some (true, trial, ACC, s') ->
+  (plen seg <= maxlen seg)%nat -> maxlen seg = e_maxlength e ->
+  hd_error (orders seg) = Some first -> hd_error (rev (orders seg)) = Some lastv ->
+  e_i0 e <= e_i2 e ->
+  (plen trial < e_maxlength e)%nat /\ maxlen trial = e_maxlength e /\
+  exists pre post,
+    orders trial = rev pre ++ orders seg ++ post /\
+    ext_side (e_i0 e) (e_i2 e) first pre /\ ext_side (e_i0 e) (e_i2 e) lastv post.
+Proof.
+  unfold extender. intros H Hfit Hml Hfirst Hlast Hint.
+  set (i0 := e_i0 e) in *. set (i2 := e_i2 e) in *. set (ml := e_maxlength e) in *.
+  destruct (pts seg) as [|f0 rest0] eqn:Eseg; [discriminate|].
+  assert (Hf0 : ford f0 = first).
+  { unfold orders in Hfirst. rewrite Eseg in Hfirst. cbn in Hfirst. now injection Hfirst. }
+  assert (Hoseg : orders seg = first :: map ford rest0).
+  { unfold orders. rewrite Eseg. cbn. now rewrite Hf0. }
+  (* step 1 *)
+  match type of H with match ?x with _ => _ end = _ => destruct x as [[trial1 s1]|] eqn:E1; [|discriminate] end.
+  destruct (rev (pts trial1)) as [|fl restl] eqn:Erl; [discriminate|].
+  match type of H with match ?x with _ => _ end = _ => destruct x as [[trial2 s2]|] eqn:E2; [|discriminate] end.
+  destruct (Nat.leb_spec ml (plen trial2)) as [?|Hshort]; [discriminate|].
+  injection H as <- <-.
+  (* trial2 is at least as long as trial1 *)
+  assert (H12 : (plen trial1 <= plen trial2)%nat /\ maxlen trial2 = maxlen trial1 /\
+                exists post, orders trial2 = orders trial1 ++ post /\ ext_side i0 i2 (ford fl) post).
+  { destruct ((i0 <=? ford fl) && (ford fl <? i2)) eqn:Ein.
+    - destruct (run_propagate fx ml 0 false (ford fl) i0 i2 s1) as [[[forth okf] s3]|] eqn:Ef; [|discriminate].
+      injection E2 as <- <-. apply in_range_b in Ein.
+      destruct (run_propagate_short _ _ _ _ _ _ _ _ _ _ _ Ef) as (F1 & F2 & F3); [apply outb_false; lia|].
+      assert (Hl1 : pts trial1 = removelast (pts trial1) ++ [fl]).
+      { rewrite <- (rev_involutive (pts trial1)) at 1. rewrite Erl. cbn [rev].
+        f_equal. rewrite <- (rev_involutive (pts trial1)) at 1. rewrite Erl. cbn [rev]. now rewrite removelast_last. }
+      assert (Hlen1 : plen trial1 = S (length (removelast (pts trial1)))).
+      { unfold plen. rewrite Hl1 at 1. rewrite app_length. cbn. lia. }
+      unfold plen in *. cbn [pts maxlen] in *. rewrite app_length in *.
+      split; [lia|]. split; [reflexivity|].
+      destruct F3 as (m & x & Ho & Im & Hx); [lia|].
+      exists (m ++ [x]). split.
+      + unfold orders in *. cbn [pts]. rewrite map_app, Ho. rewrite Hl1 at 2. rewrite map_app. cbn [map].
+        rewrite <- app_assoc. reflexivity.
+      + right. split; [exact Ein|]. exists m, x. auto.
+    - injection E2 as <- <-. split; [lia|]. split; [reflexivity|]. exists []. split; [now rewrite app_nil_r|].
+      left. split; [reflexivity|]. apply andb_false_iff in Ein as [Ein|Ein]; [apply Z.leb_gt in Ein|apply Z.ltb_ge in Ein]; lia. }
+  destruct H12 as (Hle12 & Hm12 & post & Ho2 & Hpost).
+  (* step 1 analysed *)
+  assert (H1 : maxlen trial1 = ml /\ exists pre, orders trial1 = rev pre ++ orders seg /\ ext_side i0 i2 first pre).
+  { rewrite Hf0 in E1. destruct ((i0 <=? first) && (first <? i2)) eqn:Ein.
+    - destruct (run_propagate fx ml (torigin seg) true first i0 i2 s) as [[[back okb] s3]|] eqn:Eb; [|discriminate].
+      injection E1 as <- <-. apply in_range_b in Ein.
+      destruct (run_propagate_short _ _ _ _ _ _ _ _ _ _ _ Eb) as (F1 & F2 & F3); [apply outb_false; lia|].
+      destruct (paste_maxlen_torigin back seg true ml) as [M1 _]. split; [exact M1|].
+      pose proof (paste_length_explicit back seg true ml) as PL.
+      set (trial1 := paste back seg true (Some ml)) in *.
+      assert (Hseg1 : (1 <= plen seg)%nat) by (unfold plen; rewrite Eseg; cbn; lia).
+      assert (Hbshort : (plen back < ml)%nat) by lia.
+      destruct (F3 Hbshort) as (m & x & Ho & Im & Hx).
+      exists (m ++ [x]). split.
+      + unfold trial1, orders. rewrite paste_untruncated.
+        * unfold forw_part. rewrite map_app, map_rev, map_tl.
+          change (map ford (pts back)) with (orders back). change (map ford (pts seg)) with (orders seg).
+          rewrite Ho, Hoseg. cbn [tl].
+          change (first :: m ++ [x]) with ([first] ++ (m ++ [x])). rewrite rev_app_distr. cbn [rev app].
+          rewrite <- app_assoc. reflexivity.
+        * rewrite forw_part_length. cbv iota in *. lia.
+      + right. split; [exact Ein|]. exists m, x. auto.
+    - injection E1 as <- <-. destruct (copy_orders 0 seg Hfit) as [A B]. split; [congruence|].
+      exists []. split; [cbn; exact A|]. left. split; [reflexivity|].
+      apply andb_false_iff in Ein as [Ein|Ein]; [apply Z.leb_gt in Ein|apply Z.ltb_ge in Ein]; lia. }
+  destruct H1 as (Hm1 & pre & Ho1 & Hpre).
+  split; [exact Hshort|]. split; [congruence|].
+  (* the last frame of trial1 *)
+  assert (Hfl : (post = [] -> True) /\ (ford fl = lastv)).
+  { split; [auto|].
+    assert (E : hd_error (rev (orders trial1)) = Some (ford fl)).
+    { unfold orders. rewrite <- map_rev, Erl. reflexivity. }
+    rewrite Ho1, rev_app_distr in E. destruct (rev (orders seg)) as [|y l]; [discriminate|].
+    cbn in Hlast, E. congruence. }
+  destruct Hfl as [_ Hfl]. rewrite Hfl in Hpost.
+  exists pre, post. split; [|split; assumption].
+  rewrite Ho2, Ho1, <- app_assoc. reflexivity.
+Qed.
+
+(* ================================================================== wire fencing: inversion of ACC *)
+
+Definition wf_seg0 (e : ensemble) (old : path) (sg : nat * nat * nat) : path :=
+  mkP (pts (fst (append_all (empty_path (maxlen old) 0) (seg_frames sg (pts old))))) (maxlen old) (torigin old).
+
+Record wf_trace := mkWT {
+  w_u : Q; w_ds : list Q; w_sg : nat * nat * nat; w_seg : path; w_succ : nat; w_s2 : src;
+  w_trial : path; w_s3 : src; w_trial2 : path; w_w : Z; w_sp : side
+}.
+
+Definition wf_acc_facts (fx : bool) (e : ensemble) (scL scR : bool) (old : path) (s : src) (t : wf_trace) (r : result) : Prop :=
+  s_draws s = w_u t :: w_ds t /\
+  wf_nframes (e_i1 e) (cap_of e) (orders old) <> 0%nat /\
+  wf_pick (e_i1 e) (cap_of e) (orders old) (w_u t) = Some (w_sg t) /\
+  wf_jumps fx e (e_njumps e) (wf_seg0 e old (w_sg t)) 0%nat (mkS (w_ds t) (s_kicks s) (s_streams s) (s_ncall s))
+    = Some (w_seg t, w_succ t, w_s2 t) /\
+  w_succ t <> 0%nat /\
+  extender fx e (w_seg t) (w_s2 t) = Some (true, w_trial t, ACC, w_s3 t) /\
+  subt_acceptance e scL scR (w_trial t) = Some (true, w_trial2 t, w_w t) /\
+  start_point (w_trial2 t) (e_i0 e) (e_i2 e) = Some (w_sp t) /\ sc_is scL scR (w_sp t) = true /\
+  r = mkR true ACC (w_trial2 t) (mkG 9000 (w_succ t) (plen (w_trial2 t))) (w_w t) (w_s3 t).
+
+Lemma wf_acc_inv fx e scL scR old s :
+  r_status (wire_fencing fx e scL scR old s) = ACC ->
+  exists t, wf_acc_facts fx e scL scR old s t (wire_fencing fx e scL scR old s).
+Proof.
+  unfold wire_fencing. intros H.
+  destruct (Nat.eqb_spec (wf_nframes (e_i1 e) (cap_of e) (orders old)) 0) as [?|Hn]; [discriminate H|].
+  destruct (s_draws s) as [|u ds] eqn:Ed; [discriminate H|].
+  destruct (wf_pick (e_i1 e) (cap_of e) (orders old) u) as [sg|] eqn:Epick; [|discriminate H].
+  fold (wf_seg0 e old sg) in H |- *.
+  destruct (wf_jumps fx e (e_njumps e) (wf_seg0 e old sg) 0%nat _) as [[[seg succ] s2]|] eqn:Ej; [|discriminate H].
+  destruct (Nat.eqb_spec succ 0) as [?|Hs]; [discriminate H|].
+  destruct (extender fx e seg s2) as [[[[ok1 trial] st1] s3]|] eqn:Eext; [|discriminate H].
+  pose proof Eext as Eext'. apply extender_status in Eext' as [(-> & -> & _)|(-> & -> & _)]; cbn [negb] in H |- *;
+    [|discriminate H].
+  destruct (subt_acceptance e scL scR trial) as [[[ok2 trial2] w]|] eqn:Esub; [|discriminate H].
+  destruct ok2; cbn [negb] in H |- *; [|discriminate H].
+  destruct (start_point trial2 (e_i0 e) (e_i2 e)) as [sp|] eqn:Esp; [|discriminate H].
+  destruct (sc_is scL scR sp) eqn:Esc; [|discriminate H].
+  exists (mkWT u ds sg seg succ s2 trial s3 trial2 w sp). unfold wf_acc_facts.
+  cbn [w_u w_ds w_sg w_seg w_succ w_s2 w_trial w_s3 w_trial2 w_w w_sp]. repeat (split; [assumption || reflexivity|]).
+  reflexivity.
+Qed.
+
+(* ================================================================== subt_acceptance *)
+
+Lemma subt_acceptance_acc e scL scR trial trial2 w :
+  subt_acceptance e scL scR trial = Some (true, trial2, w) ->
+  (plen trial <= maxlen trial)%nat ->
+  (orders trial2 = orders trial \/ orders trial2 = rev (orders trial)) /\
+  (w = 0 \/ compute_weight (orders trial) (e_i0 e) (e_i1 e)
+              (match e_move e with Mwf => cap_of e | _ => e_i2 e end) (e_move e) = Some w).
+Proof.
+  unfold subt_acceptance. intros H Hfit.
+  set (c3 := match e_move e with Mwf => cap_of e | _ => e_i2 e end) in *.
+  destruct (compute_weight (orders trial) (e_i0 e) (e_i1 e) c3 (e_move e)) as [w0|]; [|discriminate].
+  destruct (start_point trial (e_i0 e) c3) as [sp|]; [|discriminate].
+  destruct (sc_is scL scR sp); cbn [negb] in H.
+  - destruct (start_point trial (e_i0 e) c3) as [sp1|]; [|discriminate].
+    destruct (sc_is scL scR sp1); cbn [negb] in H; [|discriminate]. injection H as <- <-. auto.
+  - destruct (start_point (reverse 0 trial true) (e_i0 e) c3) as [sp1|]; [|discriminate].
+    destruct (sc_is scL scR sp1); cbn [negb] in H; [|discriminate]. injection H as <- <-.
+    split; [right; now apply reverse_orders|left; reflexivity].
+Qed.
+
+(* ================================================================== shape of an accepted wire-fencing path *)
+
+Definition not_ext (i0 i2 x : Z) : Prop := x < i0 \/ i2 <= x.
+
+Lemma outb_not_ext i0 i2 x : outb i0 i2 x = true -> not_ext i0 i2 x.
+Proof. intros H. apply outb_true in H. unfold not_ext. lia. Qed.
+
+Lemma inside_all_weaken l r l' r' os : l' <= l -> r <= r' -> inside_all l r os -> inside_all l' r' os.
+Proof. intros A B. unfold inside_all. apply Forall_impl. intros; lia. Qed.
+
+Lemma inside_all_app l r a b : inside_all l r a -> inside_all l r b -> inside_all l r (a ++ b).
+Proof. unfold inside_all. intros. apply Forall_app. auto. Qed.
+
+Lemma inside_all_rev l r a : inside_all l r a -> inside_all l r (rev a).
+Proof. unfold inside_all. apply Forall_rev. Qed.
+
+(* first frame, interior, last frame *)
+Definition fml (os : list Z) (f : Z) (mid : list Z) (l : Z) : Prop := os = f :: mid ++ [l].
+
+Lemma fml_rev os f mid l : fml os f mid l -> fml (rev os) l (rev mid) f.
+Proof.
+  unfold fml. intros ->. change (f :: mid ++ [l]) with ([f] ++ mid ++ [l]).
+  rewrite !rev_app_distr. cbn. reflexivity.
+Qed.
+
+Lemma core_fml i0 i2 xb M xf pre post :
+  ext_side i0 i2 xb pre -> ext_side i0 i2 xf post -> inside_all i0 i2 M ->
+  exists f mid l, fml (rev pre ++ (xb :: M ++ [xf]) ++ post) f mid l /\
+                  not_ext i0 i2 f /\ not_ext i0 i2 l /\ inside_all i0 i2 mid.
+Proof.
+  intros Hpre Hpost HM. unfold fml.
+  assert (I1 : forall x, i0 <= x < i2 -> inside_all i0 i2 [x]) by (intros x Hx; constructor; [lia|constructor]).
+  destruct Hpre as [[-> Hb]|[Hb (m & x & -> & Im & Hx)]]; destruct Hpost as [[-> Hf]|[Hf (m' & x' & -> & Im' & Hx')]].
+  - exists xb, M, xf. cbn. rewrite app_nil_r. repeat split; auto.
+  - exists xb, (M ++ xf :: m'), x'. split; [cbn; rewrite <- !app_assoc; reflexivity|].
+    split; [exact Hb|]. split; [now apply outb_not_ext|].
+    apply inside_all_app; [exact HM|]. constructor; [lia|exact Im'].
+  - exists x, (rev m ++ xb :: M), xf. split; [rewrite rev_app_distr; cbn; rewrite app_nil_r, <- !app_assoc; reflexivity|].
+    split; [now apply outb_not_ext|]. split; [exact Hf|].
+    apply inside_all_app; [now apply inside_all_rev|]. constructor; [lia|exact HM].
+  - exists x, (rev m ++ xb :: M ++ xf :: m'), x'.
+    split; [rewrite rev_app_distr; cbn; rewrite <- !app_assoc; cbn; rewrite <- !app_assoc; reflexivity|].
+    split; [now apply outb_not_ext|]. split; [now apply outb_not_ext|].
+    apply inside_all_app; [now apply inside_all_rev|]. constructor; [lia|].
+    apply inside_all_app; [exact HM|]. constructor; [lia|exact Im'].
+Qed.
+
+Record wf_valid (fx : bool) (e : ensemble) (scL scR : bool) (r : result) : Prop := {
+  (* the accepted sub-path, in the sub-ensemble (i1, i1, cap), and what was added on either side *)
+  wv_core : exists a pre post,
+      let core := rev pre ++ ao_list a ++ post in
+      (orders (r_path r) = core \/ orders (r_path r) = rev core) /\
+      ext_side (e_i0 e) (e_i2 e) (ao_xb a) pre /\ ext_side (e_i0 e) (e_i2 e) (ao_xf a) post /\
+      outb (e_i1 e) (cap_of e) (ao_xb a) = true /\ outb (e_i1 e) (cap_of e) (ao_xf a) = true /\
+      inside_all (e_i1 e) (cap_of e) (rev (ao_mb a) ++ ao_o a :: ao_mf a) /\
+      e_i1 e <= ao_o a < cap_of e /\
+      (e_scL e && e_scR e = false -> exists x y, In x (ao_list a) /\ In y (ao_list a) /\ x < e_i1 e <= y);
+  wv_len : (plen (r_path r) < e_maxlength e)%nat;
+  wv_start : exists first, hd_error (orders (r_path r)) = Some first /\
+                           sc_is scL scR (classify (e_i0 e) (e_i2 e) first) = true;
+  wv_flag : r_acc r = true /\ g_order (r_gen r) = 9000 /\ (1 <= g_a (r_gen r))%nat /\ g_b (r_gen r) = plen (r_path r)
+}.
+
+Lemma wf_acc_valid fx e scL scR old s :
+  r_status (wire_fencing fx e scL scR old s) = ACC ->
+  wf_valid fx e scL scR (wire_fencing fx e scL scR old s).
+Proof.
+  intros Hacc. destruct (wf_acc_inv _ _ _ _ _ _ Hacc) as (t & Hf).
+  set (R := wire_fencing fx e scL scR old s) in *.
+  destruct Hf as (Hd & Hn & Hpick & Hj & Hs & Hext & Hsub & Hsp & Hsc & HR).
+  (* the segment is an accepted shooting path of the sub-ensemble *)
+  destruct (wf_jumps_inv _ _ _ _ _ _ _ _ _ Hj) as (_ & Hseg & _).
+  destruct Hseg as (segk & sk & Hst & Eseg); [left; lia|]. cbv zeta in Hst, Eseg.
+  destruct (shoot_acc_valid _ _ _ _ _ _ _ _ _ _ _ _ _ Hst) as (a & V).
+  set (sr := shoot fx (e_i1 e) (e_i1 e) (cap_of e) (e_scL e) (e_scR e) (e_maxlength e) true true true segk false sk) in *.
+  destruct (sv_len _ _ _ _ _ _ _ _ _ _ _ _ _ _ _ V) as (L1 & L2 & L3).
+  destruct (copy_orders 0 (r_path sr) ltac:(lia)) as [Co Cm]. rewrite <- Eseg in Co, Cm.
+  rewrite (sv_orders _ _ _ _ _ _ _ _ _ _ _ _ _ _ _ V) in Co.
+  assert (Hsegfit : (plen (w_seg t) <= maxlen (w_seg t))%nat).
+  { unfold plen. rewrite <- (map_length ford). change (map ford (pts (w_seg t))) with (orders (w_seg t)).
+    rewrite Co, <- (sv_orders _ _ _ _ _ _ _ _ _ _ _ _ _ _ _ V). unfold orders. rewrite map_length. fold (plen (r_path sr)). lia. }
+  assert (Hi : e_i0 e <= e_i2 e).
+  { unfold start_point in Hsp. destruct (Z.ltb_spec (e_i2 e) (e_i0 e)); [discriminate|lia]. }
+  destruct (extender_acc _ _ _ _ _ _ (ao_xb a) (ao_xf a) Hext Hsegfit ltac:(congruence)) as (T1 & T2 & pre & post & To & Tpre & Tpost).
+  { rewrite Co. apply hd_error_ao. } { rewrite Co. apply last_ao. } { exact Hi. }
+  destruct (subt_acceptance_acc _ _ _ _ _ _ Hsub ltac:(lia)) as (So & _).
+  assert (HRpath : r_path R = w_trial2 t) by (rewrite HR; reflexivity).
+  assert (Hlen2 : plen (w_trial2 t) = plen (w_trial t)).
+  { unfold plen. rewrite <- !(map_length ford). change (map ford (pts ?p)) with (orders p).
+    destruct So as [->| ->]; [reflexivity|apply rev_length]. }
+  constructor.
+  - exists a, pre, post. cbv zeta. rewrite Co in To. rewrite HRpath, <- To.
+    split; [exact So|]. split; [exact Tpre|]. split; [exact Tpost|].
+    split; [apply outb_true; exact (sv_start_out _ _ _ _ _ _ _ _ _ _ _ _ _ _ _ V)|].
+    split; [apply outb_true; exact (sv_end_out _ _ _ _ _ _ _ _ _ _ _ _ _ _ _ V)|].
+    split; [exact (sv_inside _ _ _ _ _ _ _ _ _ _ _ _ _ _ _ V)|].
+    split; [exact (sv_shot_inside _ _ _ _ _ _ _ _ _ _ _ _ _ _ _ V)|].
+    exact (sv_cross _ _ _ _ _ _ _ _ _ _ _ _ _ _ _ V).
+  - rewrite HRpath, Hlen2. exact T1.
+  - rewrite HRpath. unfold start_point in Hsp. destruct (Z.ltb_spec (e_i2 e) (e_i0 e)); [discriminate|].
+    destruct (orders (w_trial2 t)) as [|x l]; [discriminate|]. injection Hsp as Hsp.
+    exists x. split; [reflexivity|]. now rewrite Hsp.
+  - rewrite HR. cbn. repeat split; lia.
+Qed.
+
+(* ------------------------------------------------------------------ consequences *)
+
+(* (i), (ii): the ends cannot be extended, everything in between is inside *)
+Lemma wf_valid_fml fx e scL scR r :
+  wf_valid fx e scL scR r -> e_i0 e <= e_i1 e -> cap_of e <= e_i2 e ->
+  exists f mid l, fml (orders (r_path r)) f mid l /\
+    not_ext (e_i0 e) (e_i2 e) f /\ not_ext (e_i0 e) (e_i2 e) l /\ inside_all (e_i0 e) (e_i2 e) mid.
+Proof.
+  intros V H01 Hc2. destruct (wv_core _ _ _ _ _ V) as (a & pre & post & Ho & Epre & Epost & _ & _ & Iin & _ & _).
+  cbv zeta in Ho.
+  destruct (core_fml (e_i0 e) (e_i2 e) (ao_xb a) (rev (ao_mb a) ++ ao_o a :: ao_mf a) (ao_xf a) pre post Epre Epost)
+    as (f & mid & l & Hfml & Nf & Nl & Im).
+  { eapply inside_all_weaken; [| |exact Iin]; lia. }
+  assert (Eao : ao_list a = ao_xb a :: (rev (ao_mb a) ++ ao_o a :: ao_mf a) ++ [ao_xf a]).
+  { unfold ao_list. cbn. f_equal. rewrite <- app_assoc. reflexivity. }
+  rewrite <- Eao in Hfml.
+  destruct Ho as [-> | ->].
+  - exists f, mid, l. auto.
+  - exists l, (rev mid), f. split; [now apply fml_rev|]. split; [exact Nl|]. split; [exact Nf|]. now apply inside_all_rev.
+Qed.
+
+(* (iii) *)
+Lemma wf_valid_cross fx e scL scR r :
+  wf_valid fx e scL scR r -> e_scL e && e_scR e = false ->
+  exists x y, In x (orders (r_path r)) /\ In y (orders (r_path r)) /\ x < e_i1 e <= y.
+Proof.
+  intros V Hsc. destruct (wv_core _ _ _ _ _ V) as (a & pre & post & Ho & _ & _ & _ & _ & _ & _ & Hc).
+  destruct (Hc Hsc) as (x & y & Hx & Hy & Hxy). cbv zeta in Ho.
+  assert (Hin : forall z, In z (ao_list a) -> In z (orders (r_path r))).
+  { intros z Hz. assert (In z (rev pre ++ ao_list a ++ post)) by (apply in_or_app; right; apply in_or_app; now left).
+    destruct Ho as [-> | ->]; [assumption|]. apply -> in_rev. exact H. }
+  exists x, y. auto.
+Qed.
+
+(* ================================================================== (vii) weights *)
+
+(* a stretch  a, mid..., b  with a, b outside [l, r), mid inside and not right -> right carries weight *)
+Lemma wf_weight_embedded l r pre a mid b post :
+  mid <> [] -> Forall (fun o => l <= o < r) mid ->
+  (a < l \/ r <= a) -> (b < l \/ r <= b) -> ~ (r <= a /\ r <= b) ->
+  (0 < wf_nframes l r (pre ++ a :: mid ++ b :: post))%nat.
+Proof.
+  intros Hne Hmid Ha Hb Hab. apply wf_weight_pos_iff.
+  exists (S (length pre)). exists (length pre), (length pre + length mid + 1)%nat, (length mid).
+  assert (Hlm : (1 <= length mid)%nat) by (destruct mid; [congruence|cbn; lia]).
+  split; [|lia].
+  split; [reflexivity|]. split; [exact Hlm|]. split.
+  - exists a, b. split.
+    + rewrite nth_error_app2 by lia. now rewrite Nat.sub_diag.
+    + split; [|tauto].
+      rewrite nth_error_app2 by lia. replace (length pre + length mid + 1 - length pre)%nat with (S (length mid)) by lia.
+      cbn [nth_error]. rewrite nth_error_app2 by lia. now rewrite Nat.sub_diag.
+  - intros j Hj. rewrite nth_error_app2 by lia.
+    destruct (j - length pre)%nat as [|k] eqn:Ek; [lia|]. cbn [nth_error].
+    rewrite nth_error_app1 by lia.
+    destruct (nth_error mid k) as [oj|] eqn:En; [|apply nth_error_None in En; lia].
+    exists oj. split; [reflexivity|]. rewrite Forall_forall in Hmid. apply Hmid. eapply nth_error_In; eauto.
+Qed.
+
+Lemma wf_valid_weight fx e scL scR r :
+  wf_valid fx e scL scR r -> e_scL e && e_scR e = false ->
+  (forall o, In o (orders (r_path r)) -> o <> cap_of e) ->
+  (0 < wf_nframes (e_i1 e) (cap_of e) (orders (r_path r)))%nat.
+Proof.
+  intros V Hsc Hguard.
+  destruct (wv_core _ _ _ _ _ V) as (a & pre & post & Ho & _ & _ & Xb & Xf & Iin & Hshot & Hc).
+  cbv zeta in Ho. set (M := rev (ao_mb a) ++ ao_o a :: ao_mf a) in *.
+  assert (Eao : rev pre ++ ao_list a ++ post = rev pre ++ ao_xb a :: M ++ ao_xf a :: post).
+  { unfold ao_list, M. cbn. rewrite <- !app_assoc. cbn. rewrite <- !app_assoc. reflexivity. }
+  assert (Hin : forall z, In z (rev pre ++ ao_list a ++ post) -> In z (orders (r_path r))).
+  { intros z Hz. destruct Ho as [-> | ->]; [assumption|]. apply -> in_rev. exact Hz. }
+  assert (W : (0 < wf_nframes (e_i1 e) (cap_of e) (rev pre ++ ao_list a ++ post))%nat).
+  { rewrite Eao. apply wf_weight_embedded.
+    - unfold M. destruct (rev (ao_mb a)); discriminate.
+    - unfold inside_all in Iin. rewrite Forall_forall in *. intros o Hoin. specialize (Iin o Hoin).
+      assert (o <> cap_of e).
+      { apply Hguard, Hin. rewrite Eao. apply in_or_app. right. right. apply in_or_app. now left. }
+      lia.
+    - apply outb_true in Xb. lia.
+    - apply outb_true in Xf. lia.
+    - destruct (Hc Hsc) as (x & _ & Hx & _ & Hlt & _).
+      assert (Hx' : x = ao_xb a \/ In x M \/ x = ao_xf a).
+      { unfold ao_list in Hx. fold M in Hx. destruct Hx as [<-|Hx]; [auto|].
+        change (rev (ao_mb a) ++ ao_o a :: ao_mf a ++ [ao_xf a]) with (rev (ao_mb a) ++ (ao_o a :: ao_mf a) ++ [ao_xf a]) in Hx.
+        rewrite app_assoc in Hx. apply in_app_or in Hx as [Hx|[<-|[]]]; auto. }
+      unfold inside_all in Iin. rewrite Forall_forall in Iin.
+      destruct Hx' as [->|[Hm| ->]]; [lia|specialize (Iin x Hm); lia|lia]. }
+  destruct Ho as [-> | ->]; [exact W|]. now rewrite wf_weight_reverse.
+Qed.
+
+Lemma compute_weight_wf_pos ords i0 i1 c w :
+  compute_weight ords i0 i1 c Mwf = Some w -> (0 < wf_nframes i1 c ords)%nat -> 0 < w.
+Proof.
+  unfold compute_weight. intros H Hp.
+  destruct (start_point _ i0 c) as [s|]; [|discriminate]. destruct (end_point _ i0 c) as [e|]; [|discriminate].
+  injection H as <-. assert (Hz : 0 < Z.of_nat (wf_nframes i1 c ords)) by lia. destruct (Z.of_nat (wf_nframes i1 c ords)); destruct s, e; cbv beta iota; lia.
+Qed.
+
+(* entry k of the weight vector of a plus path whose own move is shooting *)
+Lemma own_weight_plus_sh ords i0' irest mvs lm1 cap v k lk mv :
+  calc_cv_vector ords (i0' :: irest) mvs lm1 cap false = Some v ->
+  (S k < length (i0' :: irest))%nat -> nth_error (i0' :: irest) k = Some lk ->
+  nth_error mvs (S k) = Some mv -> mv <> Mwf ->
+  (exists o, In o ords /\ lk <= o) -> nth_error v k = Some 1.
+Proof.
+  intros Hv Hk Hlk Hmv Hne (o & Hin & Hle).
+  destruct (cv_vector_shape _ _ _ _ _ _ _ Hv) as (_ & _ & Hent).
+  destruct (Hent k lk Hk Hlk) as (mv' & b & Hmv' & Hb & He).
+  rewrite Hmv in Hmv'. injection Hmv' as <-. rewrite Hb. f_equal.
+  unfold cv_entry in He. destruct mv; [|congruence|];
+    (destruct He as [[-> _]|[_ Hall]]; [reflexivity|specialize (Hall o Hin); lia]).
+Qed.
+
+Lemma own_weight_plus_wf ords i0' irest mvs lm1 cap v k lk :
+  calc_cv_vector ords (i0' :: irest) mvs lm1 cap false = Some v ->
+  (S k < length (i0' :: irest))%nat -> nth_error (i0' :: irest) k = Some lk ->
+  nth_error mvs (S k) = Some Mwf ->
+  (0 < wf_nframes lk (match cap with Some c => c | None => last (i0' :: irest) i0' end) ords)%nat ->
+  exists b, nth_error v k = Some b /\ 0 < b.
+Proof.
+  intros Hv Hk Hlk Hmv Hpos.
+  destruct (cv_vector_shape _ _ _ _ _ _ _ Hv) as (_ & _ & Hent).
+  destruct (Hent k lk Hk Hlk) as (mv' & b & Hmv' & Hb & He).
+  rewrite Hmv in Hmv'. injection Hmv' as <-. exists b. split; [exact Hb|].
+  unfold cv_entry in He. eapply compute_weight_wf_pos; eauto.
+Qed.
+
+Lemma own_weight_minus ords intfs mvs lm1 cap l :
+  (lm1 = Some l \/ (lm1 = None /\ hd_error intfs = Some l)) ->
+  (exists o, In o ords /\ l <= o) ->
+  calc_cv_vector ords intfs mvs lm1 cap true = Some [1].
+Proof.
+  intros Hl (o & Hin & Hle).
+  assert (Hne : ords <> []) by (intros ->; destruct Hin).
+  destruct (cv_vector_minus ords intfs mvs lm1 cap l Hne Hl) as (b & -> & [[-> _]|[_ Hall]]); [reflexivity|].
+  specialize (Hall o Hin). lia.
+Qed.
+
+(* ------------------------------------------------------------------ run_md: the accepted path has non-zero own weight *)
+
+Lemma shoot_valid_reaches fx i0 i1 i2 eL eR maxlength allowmax pL pR old old_ld s r a :
+  shoot_valid fx i0 i1 i2 eL eR maxlength allowmax pL pR old old_ld s r a ->
+  (exists o, In o (orders (r_path r)) /\ i0 <= o) /\
+  (eL && eR = false -> exists o, In o (orders (r_path r)) /\ i1 <= o) /\
+  (i0 <= i1 <= i2 -> pL = false -> exists o, In o (orders (r_path r)) /\ i2 < o).
+Proof.
+  intros V. rewrite (sv_orders _ _ _ _ _ _ _ _ _ _ _ _ _ _ _ V).
+  split; [|split].
+  - exists (ao_o a). split; [|apply (sv_shot_inside _ _ _ _ _ _ _ _ _ _ _ _ _ _ _ V)].
+    unfold ao_list. right. apply in_or_app. right. now left.
+  - intros Hb. destruct (sv_cross _ _ _ _ _ _ _ _ _ _ _ _ _ _ _ V Hb) as (x & y & _ & Hy & Hxy). exists y. split; [exact Hy|lia].
+  - intros Hi Hp. destruct (sv_no_left _ _ _ _ _ _ _ _ _ _ _ _ _ _ _ V Hi Hp) as [A _].
+    exists (ao_xb a). split; [now left|exact A].
+Qed.
+
+Lemma run_md_acc fx e old old_ld s intfs mvs lm1 capg minus :
+  r_status (select_shoot fx e old old_ld s) = ACC ->
+  run_md fx e old old_ld s intfs mvs lm1 capg minus =
+  (select_shoot fx e old old_ld s, r_path (select_shoot fx e old old_ld s),
+   calc_cv_vector (orders (r_path (select_shoot fx e old old_ld s))) intfs mvs lm1 capg minus).
+Proof. intros H. unfold run_md. rewrite H. reflexivity. Qed.
+
+Lemma run_md_weight_sh_plus fx e old old_ld s i0' irest mvs lm1 capg k v :
+  e_move e = Msh -> e_scL e && e_scR e = false ->
+  r_status (select_shoot fx e old old_ld s) = ACC ->
+  snd (run_md fx e old old_ld s (i0' :: irest) mvs lm1 capg false) = Some v ->
+  (S k < length (i0' :: irest))%nat -> nth_error (i0' :: irest) k = Some (e_i1 e) ->
+  nth_error mvs (S k) = Some Msh ->
+  nth_error v k = Some 1.
+Proof.
+  intros Hmv Hsc Hacc Hw Hk Hlk Hm. rewrite run_md_acc in Hw by exact Hacc. cbn [snd] in Hw.
+  unfold select_shoot in Hacc, Hw. rewrite Hmv in Hacc, Hw.
+  destruct (shoot_acc_valid _ _ _ _ _ _ _ _ _ _ _ _ _ Hacc) as (a & V).
+  destruct (shoot_valid_reaches _ _ _ _ _ _ _ _ _ _ _ _ _ _ _ V) as (_ & H1 & _).
+  eapply own_weight_plus_sh; eauto. discriminate.
+Qed.
+
+Lemma run_md_weight_sh_minus fx e old old_ld s intfs mvs lm1 capg l :
+  e_move e = Msh ->
+  r_status (select_shoot fx e old old_ld s) = ACC ->
+  (lm1 = Some l \/ (lm1 = None /\ hd_error intfs = Some l)) ->
+  (l <= e_i0 e \/ (l <= e_i2 e /\ e_scL e = false /\ e_i0 e <= e_i1 e <= e_i2 e)) ->
+  snd (run_md fx e old old_ld s intfs mvs lm1 capg true) = Some [1].
+Proof.
+  intros Hmv Hacc Hl Hcase. rewrite run_md_acc by exact Hacc. cbn [snd].
+  unfold select_shoot in Hacc |- *. rewrite Hmv in Hacc |- *.
+  destruct (shoot_acc_valid _ _ _ _ _ _ _ _ _ _ _ _ _ Hacc) as (a & V).
+  destruct (shoot_valid_reaches _ _ _ _ _ _ _ _ _ _ _ _ _ _ _ V) as ((o & Ho & Hle) & _ & H2).
+  apply own_weight_minus with (l := l); [exact Hl|].
+  destruct Hcase as [Hc|(Hc & HpL & Hi)].
+  - exists o. split; [exact Ho|lia].
+  - destruct (H2 Hi HpL) as (o2 & Ho2 & Hlt). exists o2. split; [exact Ho2|lia].
+Qed.
+
+Lemma run_md_weight_wf_plus fx e old old_ld s i0' irest mvs lm1 capg k v :
+  e_move e = Mwf -> e_scL e && e_scR e = false ->
+  r_status (select_shoot fx e old old_ld s) = ACC ->
+  snd (run_md fx e old old_ld s (i0' :: irest) mvs lm1 capg false) = Some v ->
+  (S k < length (i0' :: irest))%nat -> nth_error (i0' :: irest) k = Some (e_i1 e) ->
+  nth_error mvs (S k) = Some Mwf ->
+  match capg with Some c => c | None => last (i0' :: irest) i0' end = cap_of e ->
+  (forall o, In o (orders (r_path (select_shoot fx e old old_ld s))) -> o <> cap_of e) ->
+  exists b, nth_error v k = Some b /\ 0 < b.
+Proof.
+  intros Hmv Hsc Hacc Hw Hk Hlk Hm Hcap Hguard. rewrite run_md_acc in Hw by exact Hacc. cbn [snd] in Hw.
+  unfold select_shoot in Hacc, Hw, Hguard. rewrite Hmv in Hacc, Hw, Hguard.
+  pose proof (wf_acc_valid _ _ _ _ _ _ Hacc) as V.
+  eapply own_weight_plus_wf; eauto. rewrite Hcap.
+  eapply wf_valid_weight; eauto.
+Qed.
+
+(* ------------------------------------------------------------------ the guard is needed: witness *)
+
+Definition zw_ens : ensemble := mkE 1 2 5 true false Mwf 20 false (Some 3) 1.
+Definition zw_old : path := mkP [mkF 0 0 false 0%nat; mkF 2 1 false 0%nat; mkF 0 2 false 0%nat] 20%nat 0.
+Definition zw_src : src := mkS [0#1; 0#1]%Q [] [[3; 1]; [4]; [0]; [6]] 0%nat.
+
+Lemma wf_zero_weight_witness :
+  let r := wire_fencing true zw_ens true false zw_old zw_src in
+  r_status r = ACC /\ orders (r_path r) = [0; 1; 3; 2; 4; 6] /\
+  wf_nframes (e_i1 zw_ens) (cap_of zw_ens) (orders (r_path r)) = 0%nat /\
+  compute_weight (orders (r_path r)) 1 2 3 Mwf = Some 0.
+Proof. vm_compute. repeat split; reflexivity. Qed.
+
+(* ================================================================== explicit statements (restated in theorems/C09.v) *)
+
+Lemma acc_valid_shoot_orders fx i0 i1 i2 eL eR maxlength allowmax pL pR old old_ld s :
+  let R := shoot fx i0 i1 i2 eL eR maxlength allowmax pL pR old old_ld s in
+  r_status R = ACC ->
+  exists xb mb o mf xf,
+    orders (r_path R) = xb :: rev mb ++ o :: mf ++ [xf] /\
+    (* (i) *)
+    (xb < i0 \/ i2 < xb) /\ (xf < i0 \/ i2 < xf) /\
+    in_sc pL pR (Some (classify i0 i2 xb)) = true /\
+    (i0 <= i1 <= i2 -> pL = false -> i2 < xb /\ i2 < xf) /\
+    (* (ii) *)
+    Forall (fun x => i0 <= x <= i2) (rev mb ++ o :: mf) /\ i0 <= o < i2 /\
+    (* (iii) *)
+    (eL && eR = false ->
+       exists x y, In x (orders (r_path R)) /\ In y (orders (r_path R)) /\ x < i1 <= y) /\
+    (* (iv) *)
+    (3 <= plen (r_path R) <= maxlength)%nat /\ maxlen (r_path R) = maxlength /\
+    (old_ld || allowmax = false ->
+       exists u rr ds, s_draws s = u :: rr :: ds /\ 0 < Qnum rr /\
+         (Z.of_nat (plen (r_path R)) - 2) * Qnum rr <= (Z.of_nat (plen old) - 2) * Zpos (Qden rr)) /\
+    (* (v) *)
+    g_b (r_gen R) = S (length mb) /\ g_order (r_gen R) = o /\
+    (exists u ds sp, s_draws s = u :: ds /\ g_a (r_gen R) = shooting_index u (plen old) /\
+       (1 <= g_a (r_gen R) < plen old)%nat /\
+       nth_error (pts old) (g_a (r_gen R)) = Some sp /\ o = shot_order s sp) /\
+    torigin (r_path R) = torigin old + Z.of_nat (g_a (r_gen R)) - Z.of_nat (g_b (r_gen R)) /\
+    r_acc R = true /\ r_weight R = 1.
+Proof.
+  intros R Hacc. destruct (shoot_acc_valid _ _ _ _ _ _ _ _ _ _ _ _ _ Hacc) as (a & V). fold R in V.
+  exists (ao_xb a), (ao_mb a), (ao_o a), (ao_mf a), (ao_xf a).
+  split; [exact (sv_orders _ _ _ _ _ _ _ _ _ _ _ _ _ _ _ V)|].
+  split; [exact (sv_start_out _ _ _ _ _ _ _ _ _ _ _ _ _ _ _ V)|].
+  split; [exact (sv_end_out _ _ _ _ _ _ _ _ _ _ _ _ _ _ _ V)|].
+  split; [exact (sv_start_side _ _ _ _ _ _ _ _ _ _ _ _ _ _ _ V)|].
+  split; [exact (sv_no_left _ _ _ _ _ _ _ _ _ _ _ _ _ _ _ V)|].
+  split; [exact (sv_inside _ _ _ _ _ _ _ _ _ _ _ _ _ _ _ V)|].
+  split; [exact (sv_shot_inside _ _ _ _ _ _ _ _ _ _ _ _ _ _ _ V)|].
+  split; [rewrite (sv_orders _ _ _ _ _ _ _ _ _ _ _ _ _ _ _ V); exact (sv_cross _ _ _ _ _ _ _ _ _ _ _ _ _ _ _ V)|].
+  destruct (sv_len _ _ _ _ _ _ _ _ _ _ _ _ _ _ _ V) as (L1 & L2 & L3).
+  split; [lia|]. split; [exact L3|].
+  split; [exact (sv_len_drawn _ _ _ _ _ _ _ _ _ _ _ _ _ _ _ V)|].
+  destruct (sv_shot_at _ _ _ _ _ _ _ _ _ _ _ _ _ _ _ V) as (G1 & _).
+  destruct (sv_index _ _ _ _ _ _ _ _ _ _ _ _ _ _ _ V) as (u & ds & sp & I1 & I2 & I3 & I4 & I5 & I6 & I7).
+  split; [exact G1|]. split; [exact I6|].
+  split; [exists u, ds, sp; auto|]. split; [exact I7|].
+  exact (sv_flag _ _ _ _ _ _ _ _ _ _ _ _ _ _ _ V).
+Qed.
+
+Lemma acc_valid_shoot_frames fx i0 i1 i2 eL eR maxlength allowmax pL pR old old_ld s :
+  let R := shoot fx i0 i1 i2 eL eR maxlength allowmax pL pR old old_ld s in
+  r_status R = ACC ->
+  exists sb sf rest,
+    s_streams s = sb :: sf :: rest /\
+    let jb := g_b (r_gen R) in
+    let o := g_order (r_gen R) in
+    (jb < plen (r_path R))%nat /\
+    nth_error (pts (r_path R)) jb = Some (eng_frame (s_ncall s) true 0 o) /\
+    (forall p, (p <= jb)%nat ->
+       nth_error (pts (r_path R)) p =
+       option_map (eng_frame (s_ncall s) true (jb - p)) (nth_error (o :: sb) (jb - p))) /\
+    (forall p, (jb < p < plen (r_path R))%nat ->
+       nth_error (pts (r_path R)) p =
+       option_map (eng_frame (S (s_ncall s)) false (p - jb)) (nth_error (o :: sf) (p - jb))) /\
+    (forall p, (p < plen (r_path R))%nat -> nth_error (pts (r_path R)) p <> None).
+Proof.
+  intros R Hacc. destruct (shoot_acc_valid _ _ _ _ _ _ _ _ _ _ _ _ _ Hacc) as (a & V). fold R in V.
+  destruct (sv_time _ _ _ _ _ _ _ _ _ _ _ _ _ _ _ V) as (sb & sf & rest & Es & T1 & T2 & T3).
+  destruct (sv_index _ _ _ _ _ _ _ _ _ _ _ _ _ _ _ V) as (u & ds & sp & _ & _ & _ & _ & _ & I6 & _).
+  destruct (sv_shot_at _ _ _ _ _ _ _ _ _ _ _ _ _ _ _ V) as (G1 & G2).
+  destruct (sv_len _ _ _ _ _ _ _ _ _ _ _ _ _ _ _ V) as (L1 & L2 & L3).
+  exists sb, sf, rest. split; [exact Es|]. cbv zeta. rewrite I6.
+  assert (Hlt : (g_b (r_gen R) < plen (r_path R))%nat).
+  { unfold plen. rewrite <- (map_length ford). change (map ford (pts (r_path R))) with (orders (r_path R)).
+    apply nth_error_Some. rewrite G2. discriminate. }
+  split; [exact Hlt|]. split.
+  - rewrite (T1 (g_b (r_gen R))) by lia. rewrite Nat.sub_diag. reflexivity.
+  - split; [exact T1|]. split; [exact T2|exact T3].
+Qed.
+
+Lemma acc_valid_wf fx e scL scR old s :
+  let R := wire_fencing fx e scL scR old s in
+  r_status R = ACC ->
+  let os := orders (r_path R) in
+  let i0 := e_i0 e in let i1 := e_i1 e in let i2 := e_i2 e in let cap := cap_of e in
+  (* (iv) *)
+  (plen (r_path R) < e_maxlength e)%nat /\
+  (* (i) start side = the single letter of start_cond *)
+  (exists first, hd_error os = Some first /\ sc_is scL scR (classify i0 i2 first) = true) /\
+  (* (i), (ii) neither end can be extended, everything in between is inside *)
+  (i0 <= i1 -> cap <= i2 ->
+     exists f mid l, os = f :: mid ++ [l] /\ (f < i0 \/ i2 <= f) /\ (l < i0 \/ i2 <= l) /\
+                     Forall (fun x => i0 <= x <= i2) mid) /\
+  (* (iii) *)
+  (e_scL e && e_scR e = false -> exists x y, In x os /\ In y os /\ x < i1 <= y) /\
+  (* (vii) *)
+  (e_scL e && e_scR e = false -> (forall o, In o os -> o <> cap) -> (0 < wf_nframes i1 cap os)%nat) /\
+  r_acc R = true.
+Proof.
+  intros R Hacc. pose proof (wf_acc_valid _ _ _ _ _ _ Hacc) as V. fold R in V. cbv zeta.
+  split; [exact (wv_len _ _ _ _ _ V)|]. split; [exact (wv_start _ _ _ _ _ V)|].
+  split; [intros A B; exact (wf_valid_fml _ _ _ _ _ V A B)|].
+  split; [exact (wf_valid_cross _ _ _ _ _ V)|].
+  split; [exact (wf_valid_weight _ _ _ _ _ V)|].
+  apply (wv_flag _ _ _ _ _ V).
+Qed.
+
+Lemma reject_untouched fx e old old_ld s intfs mvs lm1 capg minus :
+  r_status (select_shoot fx e old old_ld s) <> ACC ->
+  run_md fx e old old_ld s intfs mvs lm1 capg minus = (select_shoot fx e old old_ld s, old, None).
+Proof.
+  intros H. unfold run_md. destruct (r_status (select_shoot fx e old old_ld s)); try reflexivity. congruence.
+Qed.
+
+Lemma accept_rule_old_refuted :
+  exists i0 i1 i2 eL eR maxlength pL pR old s u rr ds sp sb sf rest jb jf,
+    s_draws s = u :: rr :: ds /\ 0 < Qnum rr /\ (3 <= plen old)%nat /\
+    nth_error (pts old) (shooting_index u (plen old)) = Some sp /\
+    i0 <= shot_order s sp < i2 /\ s_streams s = sb :: sf :: rest /\
+    first_out i0 i2 (shot_order s sp :: sb) = Some jb /\ first_out i0 i2 (shot_order s sp :: sf) = Some jf /\
+    (jb + jf + 1 <= maxlength)%nat /\
+    trial_valid i0 i1 i2 eL eR pL pR (trial_orders (shot_order s sp) sb sf jb jf) /\
+    (rr <= (Z.of_nat (plen old) - 2) # Z.to_pos (Z.of_nat (jb + jf + 1) - 2))%Q /\
+    r_status (shoot false i0 i1 i2 eL eR maxlength false pL pR old false s) = FTL /\
+    r_status (shoot true i0 i1 i2 eL eR maxlength false pL pR old false s) = ACC.
+Proof.
+  exists 1, 3, 4, true, false, 100%nat, true, false, l11_old, l11_src, (0#1)%Q, (1#2)%Q, [],
+         (mkF 2 1 false 0%nat), [0], [2;2;2;2;2;2;2;2;2;5], [], 1%nat, 10%nat.
+  repeat match goal with |- _ /\ _ => split end; try (vm_compute; reflexivity); try (vm_compute; lia).
+  - vm_compute. discriminate.
+  - unfold trial_valid. split; [exists 0; vm_compute; split; reflexivity|vm_compute; reflexivity].
+  - vm_compute. discriminate.
+Qed.
+
+Lemma wf_zero_weight_refuted :
+  exists e scL scR old s,
+    let R := wire_fencing true e scL scR old s in
+    r_status R = ACC /\ e_scL e && e_scR e = false /\ e_i0 e <= e_i1 e /\ cap_of e <= e_i2 e /\
+    In (cap_of e) (orders (r_path R)) /\
+    wf_nframes (e_i1 e) (cap_of e) (orders (r_path R)) = 0%nat.
+Proof.
+  exists zw_ens, true, false, zw_old, zw_src. vm_compute.
+  repeat split; try reflexivity; try discriminate. right; right; left; reflexivity.
 Qed.
